@@ -22,6 +22,7 @@ import (
 	"strconv"
 	"strings"
 	"testing"
+	"testing/synctest"
 
 	"golang.org/x/net/internal/zzverif/vx"
 )
@@ -37,7 +38,16 @@ type c32Case struct {
 //
 // ops: w<N> Write(N bytes) | fl Flush | cw CloseWrite | rst Reset(7) | ss peer STOP_SENDING(9) |
 //      msd peer MAX_STREAM_DATA(win+400) | ack (everything sent so far) | loss (every outstanding
-//      packet declared lost) | pto (fake time advanced to the PTO timer)
+//      packet declared lost) | pto (fake time advanced to the PTO timer) |
+//      fill (only as the seed prefix of the "send-cwnd" part: ANOTHER local stream writes and flushes
+//      32 KiB, more than the initial congestion window, nothing of it is acknowledged, and the
+//      application then abandons that stream with Reset: the congestion window is exhausted, so whatever
+//      the stream under test flushes next is held back by congestion control and its first transmission
+//      can only happen in a PTO probe, or after an ack reopened the window)
+
+// c32FillSize is what the other stream writes in a "fill" op: more than the initial congestion
+// window (10 datagrams of at most 1500 bytes), far less than the connection-level flow-control limit.
+const c32FillSize = 32 << 10
 
 type c32SendMon struct {
 	w         *vx.W
@@ -66,6 +76,12 @@ func (m *c32SendMon) observe(q *qpeerConn, after string) {
 	q.drain()
 	ps := q.sent[m.idx:]
 	m.idx = len(q.sent)
+	before := m.maxSent
+	defer func() {
+		if after == "pto" && m.maxSent > before {
+			w.Outcome("STREAM-bytes-first-transmitted-in-a-PTO-probe")
+		}
+	}()
 	for _, p := range ps {
 		for _, f := range p.frames {
 			switch f := f.(type) {
@@ -110,6 +126,16 @@ func (m *c32SendMon) observe(q *qpeerConn, after string) {
 func c32ExecSend(c *vx.Ctx, w *vx.W, cs c32Case) {
 	qpeerBubble(c, w, "C32", func(t *testing.T) {
 		side := qpeerSide(cs.Side)
+		// the stream that exhausts the congestion window in a "fill" op is of the other stream
+		// type than the stream under test, so that its stream window can be large
+		fill := false
+		for _, op := range cs.Ops {
+			fill = fill || op == "fill"
+		}
+		fillType := bidiStream
+		if cs.Kind != "uni" {
+			fillType = uniStream
+		}
 		q := qpeerNew(t, side, func(p *transportParameters) {
 			p.initialMaxStreamsBidi = 4
 			p.initialMaxStreamsUni = 4
@@ -117,6 +143,11 @@ func c32ExecSend(c *vx.Ctx, w *vx.W, cs c32Case) {
 			p.initialMaxStreamDataBidiLocal = cs.Win
 			p.initialMaxStreamDataBidiRemote = cs.Win
 			p.initialMaxStreamDataUni = cs.Win
+			if fill && fillType == bidiStream {
+				p.initialMaxStreamDataBidiRemote = 1 << 20
+			} else if fill {
+				p.initialMaxStreamDataUni = 1 << 20
+			}
 		})
 		var s *Stream
 		var err error
@@ -167,6 +198,34 @@ func c32ExecSend(c *vx.Ctx, w *vx.W, cs c32Case) {
 					w.Outcome("pto:not-armed")
 					goto done
 				}
+			case op == "fill":
+				o, err := q.tc.conn.newLocalStream(canceledContext(), fillType)
+				if err != nil {
+					t.Fatalf("cannot create the stream that fills the congestion window: %v", err)
+				}
+				o.SetWriteContext(canceledContext())
+				if n, err := o.Write(make([]byte, c32FillSize)); n != c32FillSize {
+					t.Fatalf("fill: Write = %d, %v", n, err)
+				}
+				o.Flush()
+				synctest.Wait()
+				q.drain()
+				var oSent int64
+				for _, p := range q.sent[m.idx:] {
+					for _, f := range p.frames {
+						if f, ok := f.(debugFrameStream); ok && f.id == o.id {
+							oSent = max(oSent, f.off+int64(len(f.data)))
+						}
+					}
+				}
+				if oSent == 0 || oSent >= c32FillSize {
+					t.Fatalf("fill: the other stream got %d of its %d bytes out: the congestion window did not stop it", oSent, c32FillSize)
+				}
+				// abandoned: from now on it contributes a RESET_STREAM, not a packet full of
+				// retransmitted data, to whatever the conn sends (a PTO probe visits the streams in
+				// map order, so a probe filled by this stream would make the case nondeterministic)
+				o.Reset(1)
+				w.Outcome("congestion-window-exhausted-by-another-stream")
 			default:
 				t.Fatalf("unknown op %q", op)
 			}
@@ -211,8 +270,12 @@ type c32SendGen struct {
 	last                    string
 }
 
+// "fill" is never enabled: it occurs only as the seed prefix of the send-cwnd part.
+
 func (g c32SendGen) Enabled(op string) bool {
 	switch {
+	case op == "fill":
+		return false
 	case strings.HasPrefix(op, "w"):
 		if g.cw && !g.reset {
 			return false
@@ -266,7 +329,7 @@ func (g c32SendGen) Apply(op string) (qpeerGen, bool) {
 		g.msd, g.inflight = true, true
 	case op == "ack":
 		g.inflight = false
-	case op == "loss", op == "pto":
+	case op == "loss", op == "pto", op == "fill":
 		g.inflight = true
 	}
 	g.last = op
@@ -537,9 +600,10 @@ func (g c32RecvGen) Apply(op string) (qpeerGen, bool) {
 
 func TestVerif_C32(t *testing.T) {
 	vx.Run(t, "C32", func(c *vx.Ctx) {
-		c.Rule("q-peer, each case on a fresh handshaken Conn in its own synctest bubble, every enabled operation sequence up to the depth of the part, shortest first. send: Write(1|100|5000)/Flush/CloseWrite/Reset, peer STOP_SENDING/MAX_STREAM_DATA, ack-all / all-outstanding-lost / PTO on a local uni, local bidi or accepted bidi stream with a 150-byte stream window; a monitor checks every frame sent. recv: peer STREAM/RESET_STREAM with end offsets {k-1,k,k+1} around the known final size (or the highest offset received), new data with/without FIN, Read(100), Read(1), CloseRead on a peer uni/bidi stream; recv-ranges (shallower, finer STREAM alphabet): peer STREAM frames carrying the L bytes [k+D-L, k+D) for every L in {0,1,2}, D in {-1,0,1,2}, each with and without FIN (empty only with FIN), so that exact / inner duplicates of received data, ranges overlapping its end, new contiguous ranges, new ranges behind a gap, gap-filling ranges and the empty FIN-only frame all occur with and without FIN, mixed with RESET_STREAM(final k+{-1,0,1}) and Read(100); reference RFC 9000 4.5. Non-trivial = the whole sequence ran (or ended in the expected FINAL_SIZE_ERROR). Counters: states = histories explored completely (stateless search, no deduplication), transitions = operations applied to the real conn and checked, traces = cases executed.")
+		c.Rule("q-peer, each case on a fresh handshaken Conn in its own synctest bubble, every enabled operation sequence up to the depth of the part, shortest first. send: Write(1|100|5000)/Flush/CloseWrite/Reset, peer STOP_SENDING/MAX_STREAM_DATA, ack-all / all-outstanding-lost / PTO on a local uni, local bidi or accepted bidi stream with a 150-byte stream window; a monitor checks every frame sent (final size oracle taken from the wire only: the maximum of off+len over all STREAM frames of the stream seen so far); send-cwnd: the same alphabet behind the seed prefix \"fill\" = another local stream (of the other stream type, large stream window) writes and flushes 32 KiB, which exhausts the initial congestion window with nothing acknowledged, and is then abandoned with Reset, so that data flushed on the stream under test is held back by congestion control and is transmitted for the first time in a PTO probe (or after an ack reopened the window), before Reset / STOP_SENDING. recv: peer STREAM/RESET_STREAM with end offsets {k-1,k,k+1} around the known final size (or the highest offset received), new data with/without FIN, Read(100), Read(1), CloseRead on a peer uni/bidi stream; recv-ranges (shallower, finer STREAM alphabet): peer STREAM frames carrying the L bytes [k+D-L, k+D) for every L in {0,1,2}, D in {-1,0,1,2}, each with and without FIN (empty only with FIN), so that exact / inner duplicates of received data, ranges overlapping its end, new contiguous ranges, new ranges behind a gap, gap-filling ranges and the empty FIN-only frame all occur with and without FIN, mixed with RESET_STREAM(final k+{-1,0,1}) and Read(100); reference RFC 9000 4.5. Non-trivial = the whole sequence ran (or ended in the expected FINAL_SIZE_ERROR). Counters: states = histories explored completely (stateless search, no deduplication), transitions = operations applied to the real conn and checked, traces = cases executed.")
 		c.Assume("bytes that were already moved to the lock-free read buffer may still be returned by Read after a reset; only io.EOF and a missing reset error are violations")
 		c.Assume("after the application called CloseRead the conn may forget the stream: RFC 9000 4.5 makes FINAL_SIZE_ERROR non-mandatory for closed streams, so a contradiction that arrives after CloseRead may or may not be reported (a wrong error code or the rejection of a consistent frame is still a violation), and Read results after CloseRead are not checked")
+		c.Assume("send-cwnd: the stream that exhausts the congestion window has been reset before the stream under test acts, so it adds only a RESET_STREAM to a probe packet; a probe that competes with another stream's full packet of retransmitted data is not explored (the conn visits its streams in map order when it builds a probe, which the harness cannot own)")
 		c.Assume("flow-control limits are far away (recv) / connection-level limit is far away (send); C20 covers those")
 
 		sides := vx.Pick(c, []string{"server"}, []string{"server", "client"})
@@ -560,6 +624,9 @@ func TestVerif_C32(t *testing.T) {
 		parts := []part{
 			{"send", []string{"uni"}, sendOps, vx.Pick(c, 5, 6), c32SendGen{}, c32ExecSend, nil},
 			{"send-bidi", []string{"bidi", "accepted"}, sendOps, vx.Pick(c, 4, 5), c32SendGen{}, c32ExecSend, nil},
+			// seeded start state: the congestion window is exhausted by another stream, so data flushed on the
+			// stream under test is not sent until a PTO probe (first transmission in a probe) or an ack
+			{"send-cwnd", []string{"uni", "bidi"}, sendOps, vx.Pick(c, 4, 5), c32SendGen{}, c32ExecSend, []string{"fill"}},
 			// seeded start state: 2 bytes received, both read, the second one through the lock-free fast path
 			{"recv-after-fast-read", []string{"uni", "bidi"}, recvOps, vx.Pick(c, 3, 4), c32RecvGen{m: c32RecvModel{fs: -1}}, c32ExecRecv, []string{"d+", "rd1", "rd1"}},
 			// finer STREAM alphabet, one level shallower; before the deep coarse part so that a run cut short by the deadline loses the deepest level last
